@@ -210,7 +210,14 @@ theorem aimInv_fold (rho rounds : ℝ) (n : ℕ) (outcomes : List Bool) (hrho : 
 
 /-- **AIM never overspends**, for every number of rounds actually executed and every annealing
 history, provided the one-way marginals fit (`0.9·#oneway ≤ rounds` — the hypothesis the proof
-forces; the excluded region is executed on the real code by the check) -/
+forces; the excluded region is executed on the real code by the check).
+
+Equality case `0.9·#oneway = rounds` (audit 2, `C_c07_c05`): the statement is true there only through the field convention
+`1/0 = 0`.  At equality the one-way releases already spend all of `ρ`; the next round re-calibrates to the remaining budget `0`,
+`aim_sigma_last 0 = sqrt(1/(2·0.9·0)) = 0` in ℝ, and the ledger books cost `0` for that release — whereas the real code raises
+`ZeroDivisionError`.  So `≤` is the hypothesis of the LEDGER inequality; as a statement about runs that release something it is
+meaningful under the STRICT `0.9·#oneway < rounds` only, which is what C05E (`aim_total_cost_le_rho`, `aim_events_scale_pos`)
+now requires. -/
 theorem aim_budget (rho rounds : ℝ) (n : ℕ) (outcomes : List Bool) (hrho : 0 < rho) (hrounds : 0 < rounds)
     (hfit : 0.9 * (n : ℝ) ≤ rounds) :
     (outcomes.foldl (aimStep rho) (aimInit rho rounds n)).rho_used ≤ rho := by
